@@ -699,6 +699,7 @@ def run(ctx, model):
     for p in build_spec_streams(model, cases):
         ctx.corr_breaks.append(p)
     cases = [c for c in cases if c["stream"] is not None and len(c["stream"]) <= MAX_STREAM]
+    ctx.rng.shuffle(cases)  # every class is sampled early (the run stops after 25 differences)
     query_hex = model.one("c19.cursor_query")
     predict(model, cases, query_hex)
     for c in cases:
